@@ -96,6 +96,20 @@ func (g *Gen) simpleStmt() []Stmt {
 		return []Stmt{Local1(witness, &ETable{}),
 			CallSN("emit", Str("literal-object-store"), &EParen{X: CallN("pcall", Fn(nil, false, Blk(Assign1(lhs, Num(1)))))}, Dot(N(witness), "x"), Idx(N(witness), Num(1)))}
 	}
+	if g.R.Intn(30) == 0 {
+		// x op c1 op c2 groups from the left: with floating-point operands the
+		// grouping is observable (compared with the same computation done in steps)
+		x, s1 := g.fresh("fx"), g.fresh("fs")
+		xs := []Expr{Num(0.1), Bin("^", Num(2), Num(53)), Num(1e308), Un("-", Num(1e308)), Num(0.7), Num(3)}
+		cs := [][2]float64{{0.2, 0.3}, {1, 1}, {10, 0.1}, {1e308, 1e308}, {0.1, 0.2}, {1e-17, 1e-17}}
+		k := g.R.Intn(len(xs))
+		c := cs[g.R.Intn(len(cs))]
+		op := []string{"+", "*", "+", "-"}[g.R.Intn(4)]
+		g.cover("float-grouping:%s", op)
+		return []Stmt{Local1(x, xs[k]), Local1(s1, Bin(op, N(x), Num(c[0]))), Assign1(N(s1), Bin(op, N(s1), Num(c[1]))),
+			CallSN("emit", Str("grouping"), Bin("==", Bin(op, Bin(op, N(x), Num(c[0])), Num(c[1])), N(s1)),
+				Bin("==", Bin(op, Bin(op, Num(c[0]), N(x)), Num(c[1])), Bin(op, &EParen{X: Bin(op, Num(c[0]), N(x))}, Num(c[1]))))}
+	}
 	switch g.R.Intn(12) {
 	case 0, 1, 2:
 		return []Stmt{g.emitStmt()}
@@ -450,10 +464,25 @@ func (g *Gen) ifStmt() []Stmt {
 			cond = g.expr(KBool, c)
 		}
 		s.Conds = append(s.Conds, cond)
-		s.Blocks = append(s.Blocks, g.block(1+g.R.Intn(3), false))
+		if g.R.Intn(8) == 0 {
+			// an empty block (no statement, not even a semicolon)
+			s.Blocks = append(s.Blocks, &Block{})
+			g.cover("if:empty-block")
+		} else {
+			s.Blocks = append(s.Blocks, g.block(1+g.R.Intn(3), false))
+		}
 	}
-	if g.R.Intn(2) == 0 {
+	switch g.R.Intn(6) {
+	case 0, 1, 2:
 		s.Else = g.block(1+g.R.Intn(2), false)
+	case 3:
+		s.Else = &Block{}
+		g.cover("if:empty-else")
+	}
+	if g.R.Intn(6) == 0 {
+		// directly followed by an if with an empty then-block and no elseif / else
+		g.cover("if:followed-by-empty-if")
+		return []Stmt{s, &SIf{Conds: []Expr{g.expr(KBool, g.rootCtx())}, Blocks: []*Block{{}}}, g.emitStmt()}
 	}
 	return []Stmt{s}
 }
